@@ -36,7 +36,10 @@ def run(chk):
             continue
         fired += 1
         k["fired"] += 1
-        where = ("a nested value the encoder cannot write" if c["inject"] == "unencodable" else
+        names = {"unencodable": "a nested value the encoder cannot write",
+                 "reader-refuses": "an object the writer accepts and the library's own reader would refuse",
+                 "late-failure": "a failure inside the [general] compatibility writer"}
+        where = (names[c["inject"]] if isinstance(c["inject"], str) else
                  "injected failure in %s.%s" % tuple(c["inject"])) if c["inject"] else "a really invalid nested value"
         fid = "D1-dump-truncates-before-nested-validation"
         if existed and not same:
